@@ -70,8 +70,11 @@ def split_top(s):
 
 def run(tier):
     chk = Check('C04', tier)
-    if not chk.prove():
-        chk.violation('proof obligations of props/C04.v no longer check', chk.broken_summary(), found_input=False)
+    try: dump_lift.generate()
+    except Exception as e:
+        chk.violation('dump of the lifted semantics failed: %s' % str(e)[:300], dict(dump='harness/dump_lift.py', error=str(e)[:2000]), found_input=False)
+        return chk.finish()
+    proved = chk.prove(['gen/LiftAll.vo'])
     try: build_model()
     except BuildBroken as e:
         chk.violation('extracted model does not build: ' + e.what, dict(log_tail=e.log[-3000:]), found_input=False)
@@ -183,6 +186,13 @@ def run(tier):
         h, detail = items[0]
         chk.violation('%s (%d-bit): lifted semantics and processor differ on %s — %s; %d state/form pairs' % (mn, 16 if o16 else 32, what, detail[:400], len(items)),
                       dict(case=h, mnemonic=mn, o16=o16, output=what, detail=detail, count=len(items), key=key))
+    if not proved:
+        # the mirror tie / theorems of props/C04.v broke: the evaluation above is the search for a concrete failing state
+        if chk.violations:
+            w = json.load(open(chk.violations[0]))
+            chk.violation('proof obligations of props/C04.v no longer check; failing state found by evaluation: %s' % w.get('what', '')[:300], dict(chk.broken_summary(), witness=w))
+        else:
+            chk.violation('proof obligations of props/C04.v no longer check (the regenerated add/adc/sub/sbb/cmp/and/or/xor/test forms are no longer the mirror of Sem.v, or a theorem broke)', chk.broken_summary(), found_input=False)
     chk.cov['rule'] = ('integer-core forms of the lift catalogue (one byte string per mnemonic x operand size x operand shape signature; 32-bit addressing; prefixes none/66) x %d states per form '
                        '(registers from boundary values 0,1,2^k-1,2^k,sign bit,all-ones and random; flags random; esp/ebp/esi/edi partly placed in a memory window). The lifted IR is evaluated with the '
                        'extracted Expr.eval, all assignments reading the pre-state, and compared with harness/x86ref.py (SDM reference): 8 registers, defined flags, written bytes, next eip. '
